@@ -1,9 +1,11 @@
 (* Trace replay of Model/TunnelRelay.v for the correspondence run (C17, group tunnel-relay).
-   The harness drives a real TrzszRelay over real sockets one event at a time and lets it
-   settle in between; [rtr_settle] runs every enabled thread of the model to quiescence with
-   a fixed scheduler (acceptor, handlers by index, writers, pumps).  A handler that has
-   reached the connector call waits for the harness's `dial` event, which carries what the
-   connector returned.  Executable definitions only. *)
+   The harness drives a real TrzszRelay over real sockets and pipes one event at a time and lets
+   it settle in between; [rtr_settle] runs every enabled thread of the model to quiescence with a
+   fixed scheduler (acceptor, handlers by index, the handshake goroutine, writers, pumps).  A handler
+   that has reached the connector call waits for the harness's `dial` event, which carries what the
+   connector returned; the handshake goroutine at a readLine waits for the `hs-read` event, which
+   carries what the line means (the harness wrote it); the lines the relay writes itself are the
+   tokens the harness canonicalises them to.  Executable definitions only. *)
 From Trzsz Require Import Base.Bytes Gen.Consts Model.Tunnel Model.TunnelRelay.
 From Coq Require Import ZArith.
 
@@ -15,11 +17,32 @@ Inductive rtr_ev :=
 | RtrWriteS (c : nat) (bs : list N)   (* the far end of the server connection of pair c writes *)
 | RtrCloseS (c : nat)
 | RtrConnector (v : bool)             (* SetTunnelConnector(non-nil / nil) *)
-| RtrReset.                           (* resetToStandby *)
+| RtrInband (d : rt_dir) (bs : list N) (* bytes arrive in-band: typed at the client's terminal (RdIn) / printed by the server (RdOut) *)
+| RtrHsRead (ok tun conf : bool)      (* what the line the relay's handshake goroutine is waiting for means: it decodes (ok), and for
+                                         the ACT its tunnel / confirm fields — the harness wrote the line, so it knows *)
+| RtrReset.                           (* a pump (tunnel or in-band) saw an end marker while transferring: resetToStandby *)
 
-(* replay state: the model state and "the relay is still handshaking" (a pump whose bridge has the relay
-   back-pointer parks what it reads exactly while relayStatus is kRelayHandshaking, i.e. until the first reset) *)
-Definition rtr_state := (rt_state * bool)%type.
+(* the lines the relay writes itself, as the harness canonicalises them: #ACT\n, #CFG\n, #FAIL\n *)
+Definition rtr_tok_act : list N := [35; 65; 67; 84; 10].
+Definition rtr_tok_cfg : list N := [35; 67; 70; 71; 10].
+Definition rtr_tok_fail : list N := [35; 70; 65; 73; 76; 10].
+
+(* a readLine takes everything up to and including the first newline *)
+Fixpoint rtr_line_len (bs : list N) : option nat :=
+  match bs with
+  | [] => None
+  | b :: r => if b =? 10 then Some 1%nat else match rtr_line_len r with Some n => Some (S n) | None => None end
+  end.
+
+(* the next statement of the handshake goroutine that needs no input *)
+Definition rtr_hs_auto (ch1 sh4 ch2 sh3 : list N) (s : rt_state) : option rt_state :=
+  match x_pc (r_x s) with
+  | HsRecvAct | HsRecvCfg | HsIdle => None
+  | HsSendAct _ => rt_step ch1 sh4 ch2 sh3 s (RLHs rtr_tok_act)
+  | HsSendCfg => rt_step ch1 sh4 ch2 sh3 s (RLHs rtr_tok_cfg)
+  | HsErr1 | HsErr2 => rt_step ch1 sh4 ch2 sh3 s (RLHs rtr_tok_fail)
+  | _ => rt_step ch1 sh4 ch2 sh3 s (RLHs [])
+  end.
 
 Definition rtr_pending (s : rt_state) : list nat :=
   filter (fun c => match nth_error (r_pairs s) c with
@@ -32,12 +55,12 @@ Definition rtr_handler_ready (s : rt_state) (c : nat) : bool :=
   | None => false
   end.
 
-Definition rtr_pump_try (ch1 sh4 ch2 sh3 : list N) (hs : bool) (s : rt_state) (c : nat) (d : rt_dir) : option rt_state :=
+Definition rtr_pump_try (ch1 sh4 ch2 sh3 : list N) (s : rt_state) (c : nat) (d : rt_dir) : option rt_state :=
   match nth_error (r_pairs s) c with
   | Some p =>
     match p_br p, rt_src_end d p with
     | Some b, Some e =>
-      match rt_step ch1 sh4 ch2 sh3 s (RLPump c d (Nat.min (length (e_rx e)) (N.to_nat Consts.rtunnel_pump_bufsize)) (hs && b_relay b)) with
+      match rt_step ch1 sh4 ch2 sh3 s (RLPump c d (Nat.min (length (e_rx e)) (N.to_nat Consts.rtunnel_pump_bufsize))) with
       | Some s' => Some s'
       | None =>
         match rt_step ch1 sh4 ch2 sh3 s (RLPumpEof c d) with
@@ -50,7 +73,7 @@ Definition rtr_pump_try (ch1 sh4 ch2 sh3 : list N) (hs : bool) (s : rt_state) (c
   | None => None
   end.
 
-Definition rtr_once (ch1 sh4 ch2 sh3 : list N) (hs : bool) (s : rt_state) : option rt_state :=
+Definition rtr_once (ch1 sh4 ch2 sh3 : list N) (s : rt_state) : option rt_state :=
   let idx := seq 0 (length (r_pairs s)) in
   match rt_step ch1 sh4 ch2 sh3 s RLCheck with
   | Some s' => Some s'
@@ -64,18 +87,21 @@ Definition rtr_once (ch1 sh4 ch2 sh3 : list N) (hs : bool) (s : rt_state) : opti
   match first_some (fun c => if rtr_handler_ready s c then rt_step ch1 sh4 ch2 sh3 s (RLHandler c None false) else None) idx with
   | Some s' => Some s'
   | None =>
+  match rtr_hs_auto ch1 sh4 ch2 sh3 s with
+  | Some s' => Some s'
+  | None =>
   match first_some (fun c => match rt_step ch1 sh4 ch2 sh3 s (RLWriter c RdIn) with
                              | Some s' => Some s' | None => rt_step ch1 sh4 ch2 sh3 s (RLWriter c RdOut) end) idx with
   | Some s' => Some s'
   | None =>
-    first_some (fun c => match rtr_pump_try ch1 sh4 ch2 sh3 hs s c RdIn with
-                         | Some s' => Some s' | None => rtr_pump_try ch1 sh4 ch2 sh3 hs s c RdOut end) idx
-  end end end end end.
+    first_some (fun c => match rtr_pump_try ch1 sh4 ch2 sh3 s c RdIn with
+                         | Some s' => Some s' | None => rtr_pump_try ch1 sh4 ch2 sh3 s c RdOut end) idx
+  end end end end end end.
 
-Fixpoint rtr_settle (fuel : nat) (ch1 sh4 ch2 sh3 : list N) (hs : bool) (s : rt_state) : rt_state :=
+Fixpoint rtr_settle (fuel : nat) (ch1 sh4 ch2 sh3 : list N) (s : rt_state) : rt_state :=
   match fuel with
   | O => s
-  | S f => match rtr_once ch1 sh4 ch2 sh3 hs s with Some s' => rtr_settle f ch1 sh4 ch2 sh3 hs s' | None => s end
+  | S f => match rtr_once ch1 sh4 ch2 sh3 s with Some s' => rtr_settle f ch1 sh4 ch2 sh3 s' | None => s end
   end.
 
 Definition rtr_push_c (c : nat) (e : pev) (s : rt_state) : rt_state :=
@@ -89,25 +115,33 @@ Definition rtr_push_s (c : nat) (e : pev) (s : rt_state) : rt_state :=
 Definition rtr_or (s : rt_state) (o : option rt_state) : rt_state := match o with Some s' => s' | None => s end.
 
 Definition rtr_fuel (s : rt_state) : nat :=
-  40 + 40 * length (r_pairs s) +
+  60 + 40 * length (r_pairs s) + 4 * (length (x_bufin (r_x s)) + length (x_bufout (r_x s))) +
   4 * length (concat (map (fun p => e_rx (p_cli p) ++ match p_srv p with Some e => e_rx e | None => [] end) (r_pairs s))).
 
-Definition rtr_apply (ch1 sh4 ch2 sh3 : list N) (st : rtr_state) (e : rtr_ev) : rtr_state :=
-  let '(s, hs) := st in
+(* the handshake goroutine's readLine, told what the line means *)
+Definition rtr_hs_read (ch1 sh4 ch2 sh3 : list N) (s : rt_state) (ok tun conf : bool) : rt_state :=
+  let buf := match x_pc (r_x s) with HsRecvCfg => x_bufout (r_x s) | _ => x_bufin (r_x s) end in
+  let all := concat (map snd buf) in
+  let k := match rtr_line_len all with Some n => n | None => length all end in
+  rtr_or s (rt_step ch1 sh4 ch2 sh3 s (RLHsRead k ok tun conf)).
+
+Definition rtr_apply (ch1 sh4 ch2 sh3 : list N) (s : rt_state) (e : rtr_ev) : rt_state :=
   let step := rt_step ch1 sh4 ch2 sh3 in
-  let '(s1, hs1) :=
+  let s1 :=
     match e with
-    | RtrConnect => (rtr_or s (step s (RLConnect [])), hs)
-    | RtrWriteC c bs => let s0 := rtr_push_c c (PWrite bs) s in (rtr_or s0 (step s0 (RLPeerC c)), hs)
-    | RtrCloseC c => let s0 := rtr_push_c c PClose s in (rtr_or s0 (step s0 (RLPeerC c)), hs)
-    | RtrDial c ok => (rtr_or s (step s (RLHandler c (if ok then Some [] else None) false)), hs)
-    | RtrWriteS c bs => let s0 := rtr_push_s c (PWrite bs) s in (rtr_or s0 (step s0 (RLPeerS c)), hs)
-    | RtrCloseS c => let s0 := rtr_push_s c PClose s in (rtr_or s0 (step s0 (RLPeerS c)), hs)
-    | RtrConnector v => (rtr_or s (step s (RLSetConnector v)), hs)
-    | RtrReset => (rtr_or s (step s RLReset), false)
+    | RtrConnect => rtr_or s (step s (RLConnect []))
+    | RtrWriteC c bs => let s0 := rtr_push_c c (PWrite bs) s in rtr_or s0 (step s0 (RLPeerC c))
+    | RtrCloseC c => let s0 := rtr_push_c c PClose s in rtr_or s0 (step s0 (RLPeerC c))
+    | RtrDial c ok => rtr_or s (step s (RLHandler c (if ok then Some [] else None) false))
+    | RtrWriteS c bs => let s0 := rtr_push_s c (PWrite bs) s in rtr_or s0 (step s0 (RLPeerS c))
+    | RtrCloseS c => let s0 := rtr_push_s c PClose s in rtr_or s0 (step s0 (RLPeerS c))
+    | RtrConnector v => rtr_or s (step s (RLSetConnector v))
+    | RtrInband d bs => rtr_or s (step s (RLInband d bs))
+    | RtrHsRead ok tun conf => rtr_hs_read ch1 sh4 ch2 sh3 s ok tun conf
+    | RtrReset => rtr_or s (step s RLReset)
     end in
-  (rtr_settle (rtr_fuel s1) ch1 sh4 ch2 sh3 hs1 s1, hs1).
+  rtr_settle (rtr_fuel s1) ch1 sh4 ch2 sh3 s1.
 
 Definition rtr_replay (uid : list N) (sport rport : Z) (evs : list rtr_ev) : rt_state :=
-  fst (fold_left (rtr_apply (client_hello uid rport) (server_hello uid rport) (client_hello uid sport) (server_hello uid sport))
-                 evs (rt_init, true)).
+  fold_left (rtr_apply (client_hello uid rport) (server_hello uid rport) (client_hello uid sport) (server_hello uid sport))
+            evs rt_init.
